@@ -94,6 +94,23 @@ def ref_record(L_unused, rec, how="recipe"):
         if oc != "ok":
             return "raise-in-construct:" + oc, None, []
         return ref_apply(L, rec, mod)
+    if kind == "roundtrip":
+        from .world import roundtrip
+        L = fresh(rec["recipe"][0][3])
+        if how == "recipe":
+            oc, mods = _run(lambda: (build_from_recipe(L, rec["recipe"]),
+                                     build_from_recipe(L, rec["recipe2"])))
+        else:
+            oc, mods = _run(lambda: (build_direct(L, rec["recipe"], rec["mod_dtype"]),
+                                     build_direct(L, rec["recipe2"], rec["mod_dtype2"])))
+        if oc != "ok":
+            return "raise-in-construct:" + oc, None, []
+        base, x = make_tensor(rec["op"]["arg"])
+        if rec["op"].get("requires_grad"):
+            x.requires_grad_(True)
+        oc, val = _run(lambda: call_with_mode(
+            L.torch, lambda: roundtrip(mods[0], mods[1], x), rec["op"].get("grad_mode", "ambient")))
+        return oc, val, [x] if x.requires_grad else []
     if kind == "func":
         L = fresh(rec["default_dtype"])
         a = func_args(L, rec["op"])
@@ -308,11 +325,14 @@ def run_canaries(w, st):
 
 def check_c16(w, rec, st):
     kind = rec["kind"]
-    if kind not in ("call", "inverse") or rec.get("faulted"):
+    if kind not in ("call", "inverse", "roundtrip") or rec.get("faulted"):
         return
     path = dtype_path(rec["recipe"])
     cur = rec["mod_dtype"]
-    in_dt = rec["op"]["arg"]["dtype"] if kind == "call" else DTNAME.get(rec["pyr"][0][0].dtype)
+    if kind == "roundtrip":
+        path = path + ["|"] + dtype_path(rec["recipe2"])
+        cur = "%s/%s" % (rec["mod_dtype"], rec["mod_dtype2"])
+    in_dt = rec["op"]["arg"]["dtype"] if kind != "inverse" else DTNAME.get(rec["pyr"][0][0].dtype)
     # (ii) converted module behaves like one constructed in that precision
     oc, val, leaves = ref_record(None, rec, "direct")
     st["ref_calls"] += 1
@@ -325,10 +345,11 @@ def check_c16(w, rec, st):
         return
     if oc != "ok":
         return
-    narrowed = cur == "float64" and "float32" in path
+    narrowed = _narrowed(rec["recipe"], rec["mod_dtype"]) or (
+        kind == "roundtrip" and _narrowed(rec["recipe2"], rec["mod_dtype2"]))
     if narrowed:
         xs = 1.0
-        if kind == "call":
+        if kind != "inverse":
             xs = abs(rec["op"]["arg"].get("scale", 1.0)) * 6.0
         else:
             xs = max(1e-30, max_abs(snap([rec["pyr"][0][0]] + [f[0] for f in rec["pyr"][1] if f is not None])))
@@ -362,6 +383,10 @@ def check_c16(w, rec, st):
             m = compare(snap(v1), s2, "tol", 16 * EPS[in_dt], scale=max(1e-30, max_abs(s2)))
             if m:
                 w.violation("D4-strided", rec, "strided input vs contiguous copy: " + m)
+
+
+def _narrowed(recipe, cur):
+    return cur == "float64" and "float32" in dtype_path(recipe)
 
 
 def _wrong_dtype(s, want, path="out"):
